@@ -117,7 +117,7 @@ def loop_rules(ctx, crate, body):
     tok = None
     for tgt, atom, val in body.switch_edges(body.succs[nextbb][0]) if body.succs[nextbb] else []:
         pass
-    tok_expr = ("field", 0, ("downcast", "Some", next_atom))
+    tok_expr = mir.fld(0, ("downcast", "Some", next_atom))
 
     def relevant(atom):
         if status_atom(atom, True) is not None:
